@@ -25,6 +25,9 @@ structure SState where
   /-- (layer index, option code) edited through the raw interface where the class has a code table (`codeOf`): only the
       typed getter of that code is not tracked any more -/
   poisonCodes : List (Nat × Nat) := []
+  /-- (layer index, setter) called with an argument the option cannot express (accepted all the same): the option it added
+      shadows what later calls of the setter add, so the setter is not tracked any more on that layer -/
+  poisonNames : List (Nat × String) := []
 
 structure Layer where
   cls : String
@@ -505,7 +508,7 @@ def spec04 (st : SState) (line : String) : SState × String :=
   | none => (st, "bad-line")
   | some (op, common, _) =>
     match words op with
-    | ["new"] => ({ st with sets := [], poison := [], typed := [], typedVals := [], classes := [], poisonCodes := [] }, "unspecified")
+    | ["new"] => ({ st with sets := [], poison := [], typed := [], typedVals := [], classes := [], poisonCodes := [], poisonNames := [] }, "unspecified")
     | "push" :: cls :: _ =>
       if (words common).head? == some "ok" then ({ st with classes := st.classes ++ [cls] }, "unspecified") else (st, "unspecified")
     | "set" :: idx :: name :: rest =>
@@ -517,7 +520,7 @@ def spec04 (st : SState) (line : String) : SState × String :=
         let codePoisoned := match codeOf cls name with
           | some c => st.poisonCodes.contains (i, c)
           | none => false
-        if st.poison.contains i || codePoisoned then (st, "unspecified")
+        if st.poison.contains i || codePoisoned || st.poisonNames.contains (i, name) then (st, "unspecified")
         -- END terminates an option list: what is added behind it is not an option on the wire
         else if name == "eol" || name == "end" then
           ({ st with sets := st.sets.filter (fun e => e.1 != i), typed := st.typed.filter (fun e => e.1 != i),
@@ -548,10 +551,12 @@ def spec04 (st : SState) (line : String) : SState × String :=
                      typedVals := st.typedVals.filter (fun e => e.1 != i), poison := i :: st.poison }, "unspecified")
         -- representability: RFC 8415 §21.15 — a User Class option holds one or more instances of user class data, so the empty
         -- list is not an argument the option can express (libtins encodes it as a zero-length option and rejects that)
-        else if name == "user_class" && rest == ["empty"] then (st, "unspecified")
+        else if name == "user_class" && rest == ["empty"] then
+          (if st.typed.contains (i, name) then st else { st with poisonNames := (i, name) :: st.poisonNames }, "unspecified")
         -- RFC 8415 §11.1: a DUID is a type code followed by the octets that make up the identifier; a DUID without any
         -- identifier octet is not one the option can express (the decoder asks for at least one)
-        else if (name == "client_id" || name == "server_id") && rest.getLast? == some "-" then (st, "unspecified")
+        else if (name == "client_id" || name == "server_id") && rest.getLast? == some "-" then
+          (if st.typed.contains (i, name) then st else { st with poisonNames := (i, name) :: st.poisonNames }, "unspecified")
         else if st.typed.contains (i, name) then (st, "unspecified")
         else
           let vals := (typedExpect name rest).map (fun (cls, f, x) => (i, cls, f, x)) ++ st.typedVals
